@@ -5,11 +5,13 @@ import subprocess, sys, os
 patch = os.path.abspath(sys.argv[1]); tier = "thorough" if "--thorough" in sys.argv else "quick"
 checks = [a for a in sys.argv[2:] if not a.startswith("--")]
 assert subprocess.run(["git", "-C", "/repo", "status", "--porcelain", "--untracked-files=no"], capture_output=True, text=True).stdout.strip() == "", "/repo not clean"
-r = subprocess.run(["git", "-C", "/repo", "apply", "--3way", patch], capture_output=True, text=True)
+r = subprocess.run(["git", "-C", "/repo", "apply", patch], capture_output=True, text=True)
 if r.returncode:
-    r = subprocess.run(["git", "-C", "/repo", "apply", patch], capture_output=True, text=True)
+    r = subprocess.run(["patch", "-d", "/repo", "-p1", "--no-backup-if-mismatch", "-F3", "-i", patch], capture_output=True, text=True)
     if r.returncode:
-        print("patch does not apply:", r.stderr); sys.exit(3)
+        subprocess.run(["git", "-C", "/repo", "reset", "-q", "--hard", "HEAD"])
+        subprocess.run("find /repo/src -name '*.rej' -o -name '*.orig' | xargs rm -f", shell=True)
+        print("patch does not apply:", r.stdout[-300:], r.stderr[-300:]); sys.exit(3)
 try:
     for c in checks:
         r = subprocess.run([sys.executable, "/verif/vcheck.py", c, "--tier", tier], capture_output=True, text=True, cwd="/verif")
